@@ -5,6 +5,7 @@
 import NdnVerif.Driver.Common
 import NdnVerif.C13.Text
 import NdnVerif.C04.Model
+import NdnVerif.C04.SegmentedModel
 import NdnVerif.Gen.C13Schemas
 open Ndn Ndn.Driver Ndn.C13 Ndn.C04
 
@@ -85,6 +86,15 @@ structure St where
   frames : Nat := 0
   frameBytes : Nat := 0
 
+/-- the harness's `splitCuts`: ascending absolute offsets, clamped; equal neighbours give an empty segment -/
+def segsOf (b : Bytes) (cuts : List Nat) : List Bytes :=
+  let rec go (prev : Nat) : List Nat → List Bytes
+    | [] => [b.drop prev]
+    | c :: cs =>
+      let c := min (max c prev) b.length
+      (b.drop prev).take (c - prev) :: go c cs
+  go 0 cuts
+
 def clsText : Res Vals → String
   | .ok _ _ => "ok"
   | .err _ => "err"
@@ -139,7 +149,18 @@ def step (st : St) (op : String) (got : String) : StepResult St :=
         let r := parse s (ic == "1") b
         { st := st, expected := some (clsText r), spec := sp,
           cov := [match r with | .ok _ _ => "dec-ok" | _ => "dec-err"], nontrivial := true }
-      else { st := st, expected := none, spec := sp, cov := ["dec-wire"], nontrivial := true }
+      else
+        -- segmented input: the reader-based interpreter over the WireReader model (C03/Reader.lean);
+        -- `parseR_eq_parse` proves it equal to the contiguous decoder when the segments after the first are
+        -- non-empty; other segmentations are compared too (the model has the same empty-segment handling)
+        match (cuts.splitOn ",").mapM String.toNat? with
+        | some cs =>
+          let segs := segsOf b cs
+          let r := Ndn.C04.Seg.parseR s (ic == "1") (Ndn.C03.newWireReader segs)
+          let healthy := (segs.drop 1).all (fun x => !x.isEmpty)
+          { st := st, expected := if healthy then some (clsText r) else none, spec := sp,
+            cov := [if healthy then "dec-wire" else "dec-wire-emptyseg"], nontrivial := true }
+        | none => { st := st, expected := none, spec := sp, cov := ["dec-wire"] }
     | _, _ => { st := st, expected := some "skip" }
   | ["rp", hex, cuts] =>
     match st.mode, bytesOfHex hex with
